@@ -138,4 +138,77 @@ def impl(case):
             answers.append(["err", "RecursionError"])
         except Exception as e:
             answers.append(["err", type(e).__name__])
-    return [steps, answers]
+    return [steps, answers, after_cycle(ci)]
+
+
+EXC = (ValueError, TypeError, AttributeError, KeyError, IndexError)
+
+
+def _walk(container, path=()):
+    """(path of container keys, uid, id) of every variant below a container, depth first in key order"""
+    out = []
+    for key in sorted(container.variants):
+        v = container.variants[key]
+        # (a top-level variant may have been filed under its UID by the caller; after a load it is filed under its id)
+        out.append([list(path) + [v.id], v.uid, v.id])
+        if len(path) < 6:
+            out.extend(_walk(v, tuple(path) + (v.id,)))
+    return out
+
+
+def after_cycle(ci):
+    """"the same forests after a write/read cycle": keys, lookups by UID from the top and by id from the parent, and
+    get_variants must be what they were before the forest was written and read back"""
+    import productmd.composeinfo as CI
+    ci.release.name, ci.release.short, ci.release.version, ci.release.type = "Fedora", "F", "22", "ga"
+    ci.release.is_layered = False
+    ci.compose.id, ci.compose.type, ci.compose.date, ci.compose.respin = "F-22-20240101.n.0", "nightly", "20240101", 0
+    def fill(container, depth=0):
+        for v in container.variants.values():
+            if v.type == "layered-product":
+                v.release.name, v.release.short, v.release.version, v.release.type = "Layered", "L", "1", "ga"
+            if depth < 6:
+                fill(v, depth + 1)
+    fill(ci.variants)
+    before = _walk(ci.variants)
+    uids = [b[1] for b in before]
+    if len(uids) != len(set(uids)):
+        return None                      # an object filed twice (observation O11): not a forest
+    try:
+        text = ci.dumps()
+    except Exception:
+        return None                      # not writable (e.g. a child whose parent was never added): nothing to cycle
+    ci2 = CI.ComposeInfo()
+    try:
+        ci2.loads(text)
+    except EXC:
+        return None                      # histories that misfile an object (a child also placed at the top) are not forests: C01 covers well-formed ones
+    problems = []
+    try:
+        after = _walk(ci2.variants)
+    except Exception as e:
+        return ["walk-failed", type(e).__name__]
+    if after != before:
+        problems.append("keys/uids/ids per level changed: %r -> %r" % (before, after))
+    for path, uid, vid in before:
+        try:
+            if ci2.variants[uid].uid != uid:
+                problems.append("variants[%r] after the cycle is %r" % (uid, ci2.variants[uid].uid))
+        except EXC as e:
+            problems.append("variants[%r] after the cycle raises %s" % (uid, type(e).__name__))
+        try:
+            parent = ci2.variants
+            for k in path[:-1]:
+                parent = parent.variants[k]
+            if parent[vid].uid != uid:
+                problems.append("looking %r up from its parent by id gives %r" % (vid, parent[vid].uid))
+        except EXC as e:
+            problems.append("looking %r up from its parent by id raises %s" % (vid, type(e).__name__))
+    try:
+        a = [v.uid for v in ci.variants.get_variants(recursive=True)]
+        b = [v.uid for v in ci2.variants.get_variants(recursive=True)]
+        if a != b:
+            problems.append("get_variants(recursive=True): %r before, %r after" % (a, b))
+    except EXC:
+        pass
+    return problems[:3]
